@@ -4,18 +4,22 @@ Layer A: lean/DashLive/Props/C15.lean
   * over the route table regenerated from the source on every run (gen_routes.py →
     Gen/Routes.lean): mutating_routes_guarded, mutating_routes_csrf_first,
     mutating_routes_admit_documented_role, lesser_role_never_mutates, services_suffix_free;
-  * over the guard model: guard_chain_sound, guard_denies_body_not_run;
+  * over the guard model (session identity and token owner are independent inputs): guard_chain_sound,
+    guard_denies_body_not_run, token_guards_ignore_session, session_guards_ignore_token,
+    jwt_routes_ignore_session;
   * over the CSRF state machine: csrf_at_most_once, csrf_accept_only_issued, csrf_tamper,
     csrf_service_bound, csrf_cookie_bound, csrf_bound_partial, csrf_reuse_after_prune (negative).
 Layer B: channels
   * routes_xcheck – generated table vs app.url_map / view_class / the real wrapper chains;
-  * authz        – every table row × role × flag vector as a real request against the booted
-                   application (database and blob store restored before every case): body entered /
-                   stopping status vs the Lean guard model;
+  * authz        – every table row × credential vector (session cookie of none/each role × bearer token
+                   none/guest/any account's access or refresh token × CSRF state × …) × parameter overlay as
+                   a real request against the booted application (database and blob store restored before
+                   every case): body entered / stopping status vs the Lean guard model;
   * csrf_seq     – seeded issue/use/reuse/cross-service/cross-cookie/tamper/prune sequences on the
                    real CsrfProtection vs the Lean state machine.
-Layer C: the property text evaluated on the same cases: a role below the documented one never
-  changes the SHA-256 of any table (Token table, User.last_login excluded) nor the blob listing;
+Layer C: the property text evaluated on the same cases, on the database before/after: a caller whose held
+  accounts (session, token) are not documented for the operation never changes the SHA-256 of any table
+  (Token table, User.last_login excluded) nor the blob listing; on `self` rows only the held account's row;
   an accepted CSRF token is an issued, unmodified token, presented for its own service with its own
   cookie, not accepted before since the last server start.
 """
@@ -39,11 +43,14 @@ MANIFEST_ENTRY = {
         "Lean 4 proof, partial. Authorisation: the route table (every route x HTTP method with its class "
         "decorators, method decorators, in-body CSRF / self-or-admin checks, a conservative `mutates` flag "
         "and the documented role) is regenerated from routes.py and requesthandler/*.py by an AST translator "
-        "on every run; `decide +kernel` proves over that table that every mutating row stops or blocks every "
-        "role below the documented one on every request (all 128 combinations of credentials presented, "
-        "ajax, target present, own account, CSRF token present/valid), that the documented role is admitted, "
-        "and that every in-body CSRF check precedes the first write; guard_chain_sound ties the chain to "
-        "Flask's as_view/decorator nesting order. CSRF: for every MAC function that is injective and never "
+        "on every run; the guard model takes the session identity and the owner of the bearer token as two "
+        "independent inputs; `decide +kernel` proves over that table that every mutating row stops or blocks "
+        "every caller the documentation does not allow - judged by the union of the identities it holds - on "
+        "every request (session none/guest/user/media/admin x token none/any account, access or refresh x ajax "
+        "x target present x target account x CSRF token present/valid: 300 credential vectors enumerated, "
+        "lifted to all 4800 requests by a monotonicity lemma), that a documented caller is admitted, that every "
+        "in-body CSRF check precedes the first write, and that JWT-protected routes ignore the session identity "
+        "(jwt_routes_ignore_session); guard_chain_sound ties the chain to Flask's as_view/decorator nesting order. CSRF: for every MAC function that is injective and never "
         "empty, every history of checks without a restart accepts a token at most once; an accepted token "
         "is character for character an issued one, for the same service and cookie; the negative result "
         "csrf_reuse_after_prune (tokens carry no timestamp, consumed tokens are forgotten at server start) "
@@ -77,9 +84,11 @@ TRUSTED = [
     "sqlite3 backup API for snapshot/restore; Werkzeug test client",
 ]
 ASSUMPTIONS = [
-    "roles are the group sets of the fixture users: user={USER}, media={USER,MEDIA}, admin={ADMIN}; anonymous "
-    "owns what a visitor can fetch without logging in (guest access token and 'streams' token from "
-    "GET /api/refresh/access, files/keys/streams tokens from GET /streams?ajax=1)",
+    "identities are the group sets of the fixture users: user={USER}, media={USER,MEDIA}, admin={ADMIN}; every "
+    "caller may also hold what a visitor can fetch without logging in (guest access token and 'streams' token "
+    "from GET /api/refresh/access, files/keys/streams tokens from GET /streams?ajax=1); a caller presenting the "
+    "session of one account and the token of another is judged by the union of what the two may do; the guest "
+    "account is nobody's own account",
     "a lesser role presents only tokens it can legitimately harvest (it never holds a valid 'upload' token)",
     "csrf_at_most_once is stated for histories without a server restart (prune); across a restart the "
     "negation is proved (csrf_reuse_after_prune) and listed as open finding D14b",
@@ -99,85 +108,118 @@ def _table():
     return gen_routes.build()
 
 
-def _vectors():
-    import c15_requests as rq
-    return [dict(zip(rq.FLAG_NAMES, bits)) for bits in itertools.product([False, True], repeat=7)]
-
-
-BEST = dict(sendsSession=True, sendsJwt=True, ajax=False, targetExists=True, targetIsSelf=False,
-            csrfPresent=True, csrfOk=True)
-
-
-def _flagkey(f):
-    import c15_requests as rq
-    return "".join("1" if f[n] else "0" for n in rq.FLAG_NAMES)
-
-
-def authz_cases(ctx, w, table, full: bool):
-    """(row, role, normalised flags); mutating rows: every realisable flag vector;
-    other rows: the best-effort request plus a seeded sample (quick) or everything (thorough)"""
-    import c15_requests as rq
-    import c15_world
-    rng = ctx.rng("authz")
-    vectors = _vectors()
+def aligned_vectors(rq):
+    """the vectors of a caller that uses one identity: its own session and/or its own token
+    (the anonymous visitor: no session, the guest token), every combination of the other components"""
     out = []
-    for row in table["rows"]:
-        for role in c15_world.ROLES:
-            seen = {}
-            cands = []
-            for base in (BEST, dict(BEST, ajax=True), dict(BEST, targetIsSelf=True)):
-                cands.append(base)
-            if row["mutates"] or full:
-                cands += vectors
-            else:
-                cands += [vectors[rng.randrange(len(vectors))] for _ in range(2)]
-            for f in cands:
-                nf = rq.normalise(w, row, role, f)
-                if nf is None:
-                    continue
-                k = _flagkey(nf)
-                if k not in seen:
-                    seen[k] = nf
-            for k in sorted(seen):
-                out.append((row, role, seen[k], "minimal"))
-            # widened parameter sets: for every mutating row, every role that is below the documented
-            # one on that request (and every caller of a `self` row) also sends the bodies it can build
-            # from what it legitimately obtains – on the vectors that present every credential it owns
-            # (quick) or on every vector (thorough)
-            if row["mutates"]:
-                for k in sorted(seen):
-                    f = seen[k]
-                    if not (py_lesser(row, role, f) or row["kind"] == "self"):
-                        continue
-                    if not full and not _presents_everything(w, row, role, f):
-                        continue
-                    for ov in rq.OVERLAYS[1:]:
-                        out.append((row, role, f, ov))
+    for who in ["anonymous"] + rq.ROLES:
+        sessions = ["none"] if who == "anonymous" else ["none", who]
+        tokens = ["none", "guest"] if who == "anonymous" else ["none", who]
+        targets = ["victim", "guest"] if who == "anonymous" else ["victim", who]
+        for s, t, aj, ex, tg, cp, co in itertools.product(sessions, tokens, [False, True], [True, False],
+                                                          targets, [True, False], [True, False]):
+            out.append(rq.vec(session=s, token=t, ajax=aj, targetExists=ex, target=tg, csrfPresent=cp, csrfOk=co))
     return out
 
 
-def _presents_everything(w, row, role, f) -> bool:
-    """the vector of a request that shows every credential and the best token the role can have"""
+def credential_vectors(rq, targets):
+    """the credential vector as a product: session identity (none / each role) x presented bearer token
+    (none / guest token / each account's access token / each account's refresh token) x target account,
+    on the request that is otherwise most favourable (target exists, valid CSRF token if the actor has one)"""
+    out = []
+    for s in rq.SESSIONS:
+        for t in rq.TOKENS:
+            for rf in ([False] if t in ("none", "guest") else [False, True]):
+                for tg in targets:
+                    for co in (True, False):
+                        out.append(rq.vec(session=s, token=t, refresh=rf, target=tg, csrfPresent=True, csrfOk=co))
+    return out
+
+
+def full_vectors(rq):
+    out = []
+    for s, t, rf, aj, ex, tg, cp, co in itertools.product(
+            rq.SESSIONS, rq.TOKENS, [False, True], [False, True], [True, False], rq.TARGETS,
+            [True, False], [True, False]):
+        out.append(rq.vec(session=s, token=t, refresh=rf, ajax=aj, targetExists=ex, target=tg,
+                          csrfPresent=cp, csrfOk=co))
+    return out
+
+
+def authz_cases(ctx, w, table, full: bool):
+    """(row, normalised vector, overlay).
+    every row: the favourable request of each single-identity caller + a seeded sample of its other vectors;
+    mutating rows: every single-identity vector, and the whole credential product session x token (x target
+    account on the user routes); thorough: the full product of all components on every row that is
+    mutating or not GET/HEAD, the credential product on the others; overlays see below"""
+    import c15_requests as rq
+    rng = ctx.rng("authz")
+    aligned = aligned_vectors(rq)
+    fullv = full_vectors(rq) if full else None
+    out = []
+    for row in table["rows"]:
+        seen = {}
+        cands = []
+        favourable = []
+        for who in ["anonymous"] + rq.ROLES:
+            s = "none" if who == "anonymous" else who
+            t = "guest" if who == "anonymous" else who
+            for aj in (False, True):
+                for tg in ("victim", "guest" if who == "anonymous" else who):
+                    favourable.append(rq.vec(session=s, token=t, ajax=aj, target=tg))
+        cands += favourable
+        state_changing = row["mutates"] or row["method"] not in ("GET", "HEAD")
+        if full and state_changing:
+            cands += fullv
+        elif row["mutates"]:
+            cands += aligned
+            cands += credential_vectors(rq, rq.TARGETS if row["route"] == "api-edit-user" else ["victim"])
+        else:
+            cands += [aligned[rng.randrange(len(aligned))] for _ in range(6)]
+            if full or state_changing:
+                cands += credential_vectors(rq, ["victim"])
+        for f in cands:
+            nf = rq.normalise(w, row, f)
+            if nf is None:
+                continue
+            seen.setdefault(rq.veckey(nf), nf)
+        for k in sorted(seen):
+            out.append((row, seen[k], "minimal"))
+        # widened parameter sets: for every mutating row, every caller the documentation does not allow
+        # on that request (and every caller of a `self` row) also sends the bodies it can build from what
+        # it legitimately obtains – on the vectors that present every credential it owns (quick) or on
+        # every single-identity vector (thorough)
+        if row["mutates"]:
+            keys = {rq.veckey(nf) for nf in (rq.normalise(w, row, f) for f in (aligned if full else favourable))
+                    if nf is not None}
+            for k in sorted(keys & set(seen)):
+                f = seen[k]
+                if may_change(row, f) and row["kind"] != "self":
+                    continue
+                if not full and not _presents_everything(w, row, f):
+                    continue
+                for ov in rq.OVERLAYS[1:]:
+                    out.append((row, f, ov))
+    return out
+
+
+def _presents_everything(w, row, f) -> bool:
+    """the vector of a request that shows the best token the actor can have and an existing target"""
     import c15_requests as rq
     if not f["targetExists"]:
-        return False
-    kinds = {g["g"] for g in rq.chain(row)}
-    if role != "anonymous" and "login" in kinds and not f["sendsSession"]:
-        return False
-    if ({"jwt", "jwtlogin", "selforadmin"} & kinds) and not f["sendsJwt"]:
         return False
     svc = rq.csrf_service(row)
     if svc is not None:
         if not f["csrfPresent"]:
             return False
-        if svc in w.sessions[role].csrf and not f["csrfOk"]:
+        if svc in w.sessions[rq.actor(f)].csrf and not f["csrfOk"]:
             return False
     return True
 
 
-def case_json(row, role, flags, overlay="minimal"):
-    return {"route": row["route"], "method": row["method"], "role": role, "flags": _flagkey(flags),
-            "overlay": overlay}
+def case_json(row, v, overlay="minimal"):
+    import c15_requests as rq
+    return {"route": row["route"], "method": row["method"], "vector": rq.veckey(v), "overlay": overlay}
 
 
 def case_from_json(table, j):
@@ -185,64 +227,77 @@ def case_from_json(table, j):
     row = next((r for r in table["rows"] if r["route"] == j["route"] and r["method"] == j["method"]), None)
     if row is None:
         return None
-    flags = {n: c == "1" for n, c in zip(rq.FLAG_NAMES, j["flags"])}
-    return row, j["role"], flags, j.get("overlay", "minimal")
+    if "vector" in j:
+        v = rq.vec_from_key(j["vector"])
+    else:
+        # witnesses written before the credential vector became a product: role + seven flags
+        # (sendsSession sendsJwt ajax targetExists targetIsSelf csrfPresent csrfOk)
+        role, fl = j["role"], [c == "1" for c in j["flags"]]
+        own = "guest" if role == "anonymous" else role
+        v = rq.vec(session=role if (fl[0] and role != "anonymous") else "none",
+                   token=own if fl[1] else "none", ajax=fl[2], targetExists=fl[3],
+                   target=own if fl[4] else "victim", csrfPresent=fl[5], csrfOk=fl[6])
+    return row, v, j.get("overlay", "minimal")
 
 
-def py_lesser(row, role, flags) -> bool:
-    """the property's own reading of 'lesser role', independent of the Lean model:
-    media group for streams/media/keys/multi-period streams, admin for other users,
-    the user themself for their own account; nobody where no role is documented"""
-    import c15_world
-    rank = c15_world.RANK[role]
+def may_change(row, v) -> bool:
+    """the property's own reading of who may change what, independent of the Lean model, judged by
+    the union of the accounts the caller has proved to hold (session cookie, bearer token): media group
+    for streams/media/keys/multi-period streams, admin for other users, the user themself for their own
+    account; nobody where no role is documented.  The guest account is nobody's own account."""
+    import c15_requests as rq
+    h = rq.held(v)
     kind = row["kind"]
     if kind == "none":
-        return True
+        return False
     if kind == "media":
-        return rank < c15_world.RANK["media"]
+        return bool(h & {"media", "admin"})
     if kind == "admin":
-        return rank < c15_world.RANK["admin"]
+        return "admin" in h
     if kind == "self":
-        return rank < (c15_world.RANK["user"] if flags["targetIsSelf"] else c15_world.RANK["admin"])
+        return "admin" in h or v["target"] in h
     raise ValueError(kind)
 
 
-def run_authz_case(w, row, role, flags, overlay="minimal"):
+def run_authz_case(w, row, v, overlay="minimal"):
     import c15_requests as rq
-    obs = rq.execute(w, row, role, flags, overlay)
+    obs = rq.execute(w, row, v, overlay)
     fail = None
-    if py_lesser(row, role, flags) and obs["changed"]:
-        fail = {"channel": "authz", "clause": "a role below the documented one changed persistent state",
-                "case": case_json(row, role, flags, overlay), "documented": row["kind"], "changed": obs["changed"],
-                "changed_user_rows": obs["changed_users"],
-                "status": obs["status"], "request": obs["request"], "handler": row["impl"]}
-    elif row["kind"] == "self" and role != "admin" and obs["changed"]:
-        # "the user themself for their own account": a non-admin caller may change its own User row, nothing else
-        own = w.sessions[role].pk
+    common_part = {"case": case_json(row, v, overlay), "documented": row["kind"], "holds": sorted(rq.held(v)),
+                   "changed": obs["changed"], "changed_user_rows": obs["changed_users"],
+                   "status": obs["status"], "request": obs["request"], "handler": row["impl"]}
+    if not may_change(row, v) and obs["changed"]:
+        fail = {"channel": "authz", "clause": "a caller the documentation does not allow changed persistent state",
+                **common_part}
+    elif row["kind"] == "self" and "admin" not in rq.held(v) and obs["changed"]:
+        # "the user themself for their own account": a non-admin caller may change the row of the
+        # account named in the URL (which it holds), nothing else
+        own = rq.target_pk(w, v["target"])
         others = [pk for pk in obs["changed_users"] if pk != own]
         tables = [t for t in obs["changed"] if t != "User"]
         if others or tables:
-            fail = {"channel": "authz",
-                    "clause": "a non-admin caller changed state other than its own account",
-                    "case": case_json(row, role, flags, overlay), "documented": row["kind"],
-                    "changed": obs["changed"], "changed_user_rows": obs["changed_users"], "own_pk": own,
-                    "status": obs["status"], "request": obs["request"], "handler": row["impl"]}
+            fail = {"channel": "authz", "clause": "a non-admin caller changed state other than its own account",
+                    "own_pk": own, **common_part}
     return obs, fail
 
 
 def authz_channel(ctx, w, table) -> Channel:
     import c15_requests as rq
     ch = Channel("authz", rule=(
-        "one real HTTP request per (table row, role, flag vector) against the booted application with the "
-        "database and blob store restored to the snapshot first; compared with the Lean guard model: body "
-        "entered <-> verdict pass/block, status of the stopping guard, block => fingerprints unchanged; "
-        "mutating rows x lesser roles (and every caller of a `self` row) additionally with parameter overlays "
-        "built from what the role can obtain (own account fields incl. its pk in the BODY against another "
-        "identifier in the URL, ids of other readable objects, full form of the target as the role reads it, "
-        "victim ids in the body against the own URL); for `self` rows only the caller's own User row may change; "
-        "non-trivial = the row has at least one guard; distinct by (route, method, role, flags, overlay)"))
+        "one real HTTP request per (table row, credential/flag vector, parameter overlay) against the booted "
+        "application with the database and blob store restored to the snapshot first. The credential vector is "
+        "a product: session cookie of none/user/media/admin x bearer token none / guest token / any account's "
+        "access or refresh token (independent of the session) x CSRF absent/valid/tampered x ajax x target "
+        "exists x target account; every mutating row gets the whole session x token product. Compared with the "
+        "Lean guard model (which takes both identities as inputs): body entered <-> verdict pass/block, status "
+        "of the stopping guard, block => fingerprints unchanged, mayChange. Oracle from the database before/"
+        "after: a caller may change state only if the union of the accounts it holds is documented for it; on "
+        "`self` rows only the held account named in the URL. Mutating rows additionally with parameter overlays "
+        "built from what the actor can obtain (own account fields incl. its pk in the BODY against another id in "
+        "the URL, ids of other readable objects, full form of the target, victim ids in the body); "
+        "non-trivial = the row has at least one guard; distinct by (route, method, vector, overlay)"))
     cases = authz_cases(ctx, w, table, ctx.thorough)
-    lines = [rq.model_line(r, role, f) for r, role, f, _ in cases]
+    lines = [rq.model_line(r, f) for r, f, _ in cases]
     try:
         model = common.run_driver(lines)
     except Exception as e:
@@ -251,25 +306,32 @@ def authz_channel(ctx, w, table) -> Channel:
     witnessed = set()
     mutating = {(r["route"], r["method"]) for r in table["rows"] if r["mutates"]}
     pairs = set()
+    cred_pairs = set()
     import importlib.util
     can_async = importlib.util.find_spec("asgiref") is not None
-    for (row, role, flags, overlay), mo in zip(cases, model):
+    for (row, v, overlay), mo in zip(cases, model):
         ch.evaluations += 1
+        role = rq.actor(v)
         try:
-            obs, fail = run_authz_case(w, row, role, flags, overlay)
+            obs, fail = run_authz_case(w, row, v, overlay)
         except Exception as e:
-            ch.errors.append(f"{case_json(row, role, flags, overlay)}: {type(e).__name__}: {e}")
+            ch.errors.append(f"{case_json(row, v, overlay)}: {type(e).__name__}: {e}")
             continue
         pairs.add((row["route"], row["method"], role))
-        cj = case_json(row, role, flags, overlay)
+        if row["mutates"]:
+            cred_pairs.add((row["route"], row["method"], v["session"], v["token"], v["refresh"]))
+        cj = case_json(row, v, overlay)
         ch.count(f"parameters|{overlay}")
+        aligned = v["token"] in ("none", "guest" if v["session"] == "none" else v["session"]) or v["session"] == "none"
+        ch.count("credentials|" + ("single identity" if aligned else "session and token of different accounts")
+                 + ("|refresh token" if v["refresh"] else ""))
         if fail:
             ch.oracle_failures.append(fail)
         if mo == "driver-error" or mo == "bad-op":
             if mo == "bad-op":
-                ch.errors.append(f"driver rejected {rq.model_line(row, role, flags)}")
+                ch.errors.append(f"driver rejected {rq.model_line(row, v)}")
             continue
-        verdict, lesser = mo.split()
+        verdict, allowed = mo.split()
         entered_expected = verdict in ("pass", "block")
         skip_entered = row.get("async") and not can_async
         problems = []
@@ -280,30 +342,33 @@ def authz_channel(ctx, w, table) -> Channel:
             problems.append("status")
         if verdict == "block" and obs["changed"]:
             problems.append("blocked-but-state-changed")
-        if (lesser == "1") != py_lesser(row, role, flags):
-            problems.append("lesser")
+        if (allowed == "1") != may_change(row, v):
+            problems.append("mayChange")
         if obs["changed"] and not row["mutates"]:
             problems.append("state-changed-on-a-row-the-translator-calls-read-only")
         if problems:
             ch.disagreements.append({"case": cj, "what": problems, "model": mo,
                                      "impl": {"entered": obs["entered"], "status": obs["status"],
                                               "changed": obs["changed"]}, "request": obs["request"]})
-        if obs["changed"] and not py_lesser(row, role, flags):
+        ok = may_change(row, v)
+        if obs["changed"] and ok:
             witnessed.add((row["route"], row["method"]))
         if rq.chain(row):
-            ch.nontrivial.add((row["route"], row["method"], role, _flagkey(flags), overlay))
+            ch.nontrivial.add((row["route"], row["method"], rq.veckey(v), overlay))
         cls = "stopped" if not obs["entered"] else ("changed" if obs["changed"] else "entered-unchanged")
         ch.count(f"{row['method']}|{role}|{cls}")
         ch.count(f"verdict|{verdict.split(':')[0]}")
         if skip_entered:
             ch.count("async_view_not_runnable_in_sandbox")
         if row["mutates"]:
-            ch.count(f"mutating_row|{role}|{'lesser' if py_lesser(row, role, flags) else 'authorised'}|{cls}")
+            ch.count(f"mutating_row|{role}|{'allowed' if ok else 'not allowed'}|{cls}")
         ch.sample({"case": cj, "model": mo, "status": obs["status"], "entered": obs["entered"],
                    "changed": obs["changed"]}, limit=4)
     nrows = len(table["rows"])
     ch.distribution["coverage|rows"] = f"{len({(a, b) for a, b, _ in pairs})}/{nrows}"
     ch.distribution["coverage|row_x_role"] = f"{len(pairs)}/{nrows * 4}"
+    ncred = len(rq.SESSIONS) * (2 + 2 * len(rq.ROLES))
+    ch.distribution["coverage|mutating_row_x_session_x_token"] = f"{len(cred_pairs)}/{len(mutating) * ncred}"
     ch.distribution["coverage|mutating_rows_with_authorised_change_witnessed"] = \
         f"{len(witnessed & mutating)}/{len(mutating)}"
     missing = sorted(mutating - witnessed)
@@ -722,38 +787,46 @@ def search(ctx, disagreements):
                 first.append(c)
     tried = set()
 
-    def attempt(row, role, flags, overlays=None):
+    def attempt(row, v, overlays=None):
         import c15_requests as rq
-        nf = rq.normalise(w, row, role, flags)
+        nf = rq.normalise(w, row, v)
         if nf is None:
             return None
         if overlays is None:
             overlays = rq.OVERLAYS if (row["mutates"] or row["method"] not in ("GET", "HEAD")) else ["minimal"]
         for ov in overlays:
-            k = (row["route"], row["method"], role, _flagkey(nf), ov)
+            k = (row["route"], row["method"], rq.veckey(nf), ov)
             if k in tried:
                 continue
             tried.add(k)
-            _, fail = run_authz_case(w, row, role, nf, ov)
+            _, fail = run_authz_case(w, row, nf, ov)
             if fail:
                 return fail
         return None
 
-    for row, role, flags, ov in first:
-        f = attempt(row, role, flags, [ov]) or attempt(row, role, flags)
+    import c15_requests as rq
+    for row, v, ov in first:
+        f = attempt(row, v, [ov]) or attempt(row, v)
         if f:
             return f
-    rows_first = [r for r, _, _, _ in first]
-    vectors = _vectors()
-    # 2. every row the table calls mutating or whose kind is documented, then all rows: all roles × all vectors
+    rows_first = [r for r, _, _ in first]
+    # 2. the rows of the disagreements, the rows the table calls mutating, every other state-changing verb,
+    #    then all rows: the credential product first (cheap, decisive), then the full product of all components
     ordered = rows_first + [r for r in table["rows"] if r["mutates"]] + \
         [r for r in table["rows"] if r["method"] not in ("GET", "HEAD")] + table["rows"]
     for row in ordered:
-        for role in c15_world.ROLES:
-            for flags in vectors:
-                f = attempt(row, role, flags)
-                if f:
-                    return f
+        for v in credential_vectors(rq, rq.TARGETS if row["route"] == "api-edit-user" else ["victim"]):
+            f = attempt(row, v)
+            if f:
+                return f
+    fullv = full_vectors(rq)
+    for row in ordered:
+        if not (row["mutates"] or row["method"] not in ("GET", "HEAD")):
+            continue
+        for v in fullv:
+            f = attempt(row, v, None if row["mutates"] else ["minimal"])
+            if f:
+                return f
     # 3. CSRF sequences
     services = list(table["services"]) or ["streams"]
     rng = ctx.rng("search-csrf")
@@ -786,8 +859,8 @@ def replay(ctx, payload):
         if c is None:
             return {"fails": False, "note": "route/method no longer exists", "case": f["case"]}
         w = c15_world.world()
-        row, role, flags, overlay = c
-        obs, fail = run_authz_case(w, row, role, flags, overlay)
+        row, v, overlay = c
+        obs, fail = run_authz_case(w, row, v, overlay)
         return {"fails": bool(fail), "clause": fail["clause"] if fail else None, "case": f["case"],
                 "documented": row["kind"], "status": obs["status"], "body_entered": obs["entered"],
                 "changed": obs["changed"], "changed_user_rows": obs["changed_users"], "request": obs["request"]}
